@@ -60,6 +60,34 @@ def body_view(body):
     return out
 
 
+def hold(ro):
+    """Story and Item wrapper objects as a caller would keep them across later merges."""
+    try:
+        return list(ro.stories)
+    except Exception:  # noqa: BLE001
+        return []
+
+
+def held_mismatch(held, ro):
+    """Wrappers fetched BEFORE a merge, read AFTER it: a wrapper whose element is still in the running order must
+    read like a freshly fetched one (body, script, items, duration, slug); returns a description or None."""
+    try:
+        fresh = {id(s.xml): s for s in ro.stories}
+        for h in held:
+            f = fresh.get(id(h.xml))
+            if f is None:
+                continue
+            for name, rd in (('body', lambda s: body_view(s.body)), ('script', lambda s: list(s.script)),
+                             ('items', lambda s: [item_view(i) for i in s.items]), ('duration', lambda s: s.duration),
+                             ('slug', lambda s: s.slug), ('id', lambda s: s.id)):
+                a, b = rd(h), rd(f)
+                if a != b:
+                    return {'story': f.id, 'accessor': name, 'held': repr(a)[:300], 'fresh': repr(b)[:300]}
+    except Exception as e:  # noqa: BLE001
+        return {'raised': type(e).__name__}
+    return None
+
+
 def read_view(ro):
     """Every documented read accessor of a live RunningOrder -> {'view': …} or {'crash': name}."""
     from . import impl
@@ -292,12 +320,16 @@ def expected_send_body(msg):
     body = []
     for c in kids:
         if c[0] == 'p':
-            if c[4]:
-                return None                      # paragraphs with inline child elements are outside the claim
-            body.append(('p', c[2] or ''))
+            # a paragraph with inline child elements is outside the claim: any text is accepted in its place
+            body.append(('p', None if c[4] else (c[2] or '')))
         elif c[0] == 'item':
             body.append(('item', TJ.child_text(c, 'itemID')))
     return TJ.child_text(base, 'storyID'), body
+
+
+def same_body(got, expected):
+    return len(got) == len(expected) and all(tuple(g) == tuple(e) or (e[0] == 'p' and e[1] is None and g[0] == 'p')
+                                             for g, e in zip(got, expected))
 
 
 def corpus_docs():
@@ -373,12 +405,19 @@ def evaluate(pid, tier, seed):
                     oc.evaluations += 1
                     oc.count('send-body')
                     brief = lambda b: [(('p', x['p']) if 'p' in x else ('item', x['item']['id'])) for x in b]
-                    if not got or brief(got[0]['body']) != body:
+                    if not got or not same_body(brief(got[0]['body']), body):
                         oc.failing.append({'kind': 'access', 'ro_text': TJ.to_text(st['obs']['ro']), 'label': f'roStorySend body, history seed={h["seed"]} step {st["k"]}',
                                            'live_history': hist_run.live_script(h, st['k']), 'send_body': {'story': sid, 'expected': body},
                                            'spec': 'the body of the story a roStorySend delivered is what preceded the storyBody, its children in order '
                                                    '(storyItem as item, an empty paragraph as the empty string), then what followed it',
                                            'impl': brief(got[0]['body']) if got else None})
+    for h in hists:
+        for st in h['steps']:
+            if st.get('held_mismatch'):
+                oc.failing.append({'kind': 'access', 'ro_text': TJ.to_text(st['obs']['ro']), 'live_history': hist_run.live_script(h, st['k']),
+                                   'label': f'held Story object, history seed={h["seed"]} step {st["k"]} ({st["cls"]})', 'held': True,
+                                   'spec': 'a Story object fetched before a merge reads differently from a freshly fetched one for the same element '
+                                           '(accessors agree with the document in every reachable state)', 'impl': st['held_mismatch']})
     reqs = [{'op': 'access', 'ro': t, 'impl': v} for (_, t, v, _) in entries]
     resps = lean.run_batch(reqs)
     for (lbl, tree, view, rec), r in zip(entries, resps):
@@ -457,6 +496,30 @@ def spaces_check(oc):
 
 def replay(pid, fl):
     from . import impl, lean
+    if fl.get('held'):
+        # wrappers held across the last step of the recorded live history
+        lh = fl['live_history']
+        ro = impl.load(lh['ro_text'])
+        objects, held = {}, []
+        for st in lh['script']:
+            held = hold(ro)
+            for hs in held:
+                try:
+                    hs.body, hs.script, hs.items, hs.duration
+                except Exception:  # noqa: BLE001
+                    pass
+            if st['obj'] is None:
+                continue
+            if st['obj'] not in objects:
+                objects[st['obj']] = impl.load(st['msg_text'])
+            impl.add(ro, objects[st['obj']], via=st['via'])
+        mm = held_mismatch(held, ro)
+        print(mm)
+        if mm:
+            print(f'VIOLATION property={pid} replay=(this file): still fails on the current tree')
+            return 1
+        print(f'{pid}: the recorded input no longer fails on the current tree')
+        return 0
     if 'live_history' in fl:
         # a state of a live history (message objects may have been added twice): rebuild the live object
         ro = hist_run.replay_live(fl['live_history'], want_object=True)
@@ -469,7 +532,7 @@ def replay(pid, fl):
         sb = fl['send_body']
         got = [sv for sv in view.get('view', {}).get('stories', []) if sv['id'] == sb['story']]
         brief = lambda b: [[('p', x['p']) if 'p' in x else ('item', x['item']['id'])][0] for x in b]
-        ok = bool(got) and [list(x) for x in brief(got[0]['body'])] == [list(x) for x in sb['expected']]
+        ok = bool(got) and same_body(brief(got[0]['body']), [tuple(x) for x in sb['expected']])
         print({'expected': sb['expected'], 'impl': brief(got[0]['body']) if got else None})
         if not ok:
             print(f'VIOLATION property={pid} replay=(this file): still fails on the current tree')
